@@ -191,6 +191,13 @@ impl WirePeer {
         self.rig.fsm_states(self.src).await.is_some_and(|(_, p)| p == crate::fsm::State::Established)
     }
 
+    /// the next close of our end is a reset (RST), not a FIN
+    pub fn set_linger_zero(&mut self) {
+        if let Some(s) = self.stream.as_ref() {
+            let _ = s.set_linger(Some(Duration::ZERO));
+        }
+    }
+
     /// close our end and wait for the daemon's session task to finish
     pub async fn close(&mut self) -> Result<(), Failure> {
         self.stream = None;
